@@ -1,4 +1,5 @@
 import VermouthProofs.C13_BackmapProofs
+import VermouthProofs.C13_MappingProofs
 /-!
 # C13 — backward-style `.map` files and ITP pragmas: top-level property theorems
 
@@ -92,5 +93,58 @@ theorem itp_line_meta (pre : List Line) (l : Line) (post : List Line) (out : Lis
 theorem itp_pragma_errors (m : String × String) :
     pragmaStep none "#endif" = none ∧ pragmaStep none "#else" = none ∧ pragmaStep (some m) "#ifdef X" = none :=
   ⟨pragmaStep_endif_needs_open, pragmaStep_else_needs_open, pragmaStep_nested_rejected m⟩
+
+end C13.Props
+
+/-! ## New-style `.mapping` files (`MappingDirector` + `MappingBuilder`, `read_mapping_file`)
+Model: `VermouthModel/C13_Mapping.lean`; proofs: `VermouthProofs/C13_MappingProofs.lean`. -/
+namespace C13.Props
+open C13 C13.Mapping
+
+/-- **Every declared mapping is emitted exactly once, in file order**: the mappings `readMapping` returns
+are the `mapSpec` of the (comment-stripped, macro-expanded) file - one per ended `[ block ]` /
+`[ modification ]` section - and their number is the number of such headers. -/
+theorem mapping_file_once_in_order (lib : Lib) (raw : List String) (es : List Emitted)
+    (h : readMapping lib raw = some es) :
+    (∃ lines lines' s, classify raw = some lines ∧ expandMacros mapT [] [] lines = some lines' ∧
+      mapRun (mparams lib) lines' = some s ∧
+      s.out = mapSpec (mparams lib) [] (0, {}) 0 lines' ∧
+      es = emitAll lines' s ∧ es.length = (mapSpec (mparams lib) [] (0, {}) 0 lines').length) ∧
+    (∃ lines lines', classify raw = some lines ∧ expandMacros mapT [] [] lines = some lines' ∧
+      es.length = kindHeaders lines') :=
+  ⟨mapping_emitted_once_in_order lib raw es h, mapping_count_eq_kind_headers lib raw es h⟩
+
+/-- **with exactly the declared atoms and weights**: a `[ mapping ]` line `from to [w]` whose atoms
+resolve to the unique nodes `i`, `j` sets entry (i, j) to `w` (1 when absent) and changes nothing else -/
+theorem mapping_file_line_spec (c : MCtx) (line f t : String) (rest : List String) (w : Int)
+    (af ato : Attrs) (cf ct : Option Attrs) (i j : Nat)
+    (hs : splitWs line = f :: t :: rest) (hw : weightOf rest = some w)
+    (hf : resolve c.ids c.curFrom .frm f = some (af, cf))
+    (ht : resolve c.ids c.curTo .to t = some (ato, ct))
+    (hi : findAtoms c.molFrom af = [i]) (hj : findAtoms c.molTo ato = [j]) :
+    ∃ c', mappingLine line c = some c' ∧ getW c'.mapping i j = some w ∧
+      (∀ i' j', (i', j') ≠ (i, j) → getW c'.mapping i' j' = getW c.mapping i' j') ∧
+      c'.molFrom = c.molFrom ∧ c'.molTo = c.molTo ∧ c'.ids = c.ids ∧ c'.names = c.names ∧
+      c'.refs = c.refs ∧ c'.ffFrom = c.ffFrom ∧ c'.ffTo = c.ffTo :=
+  mapping_line_spec c line f t rest w af ato cf ct i j hs hw hf ht hi hj
+
+/-- an atom that resolves to no node or to several nodes is an error -/
+theorem mapping_file_ambiguous_atom_rejected (c : MCtx) (line f t : String) (rest : List String)
+    (af ato : Attrs) (cf ct : Option Attrs)
+    (hs : splitWs line = f :: t :: rest)
+    (hf : resolve c.ids c.curFrom .frm f = some (af, cf))
+    (ht : resolve c.ids c.curTo .to t = some (ato, ct))
+    (h : (findAtoms c.molFrom af).length ≠ 1 ∨ (findAtoms c.molTo ato).length ≠ 1) :
+    mappingLine line c = none :=
+  mapping_line_error c line f t rest af ato cf ct hs hf ht h
+
+/-- the entries of each emitted mapping are the in-order fold (last wins) of its own `[ mapping ]` lines -/
+theorem mapping_file_entries_are_declared (lib : Lib) (raw : List String) (es : List Emitted)
+    (h : readMapping lib raw = some es) :
+    ∃ lines lines', classify raw = some lines ∧ expandMacros mapT [] [] lines = some lines' ∧
+      es.map (·.mapping) =
+        (mapSpec (bodyP mapT) [] (0, []) 0 lines').map
+          (fun b => (triplesFrom lib {} b.2).foldl applyT []) :=
+  mapping_entries_fold lib raw es h
 
 end C13.Props
